@@ -425,6 +425,9 @@ class Aligner:
                 key, neg = "%s < %s" % (b, a), True
         else:
             key = self._atom_key(e, side)
+        for w in getattr(self, "_written", ()):
+            if w and w in key:
+                raise Aligner._Giveup()          # the window assigns something this condition reads: order matters, do not guess
         if key not in val:
             raise Aligner._Need(key)
         return val[key] != neg
@@ -459,8 +462,14 @@ class Aligner:
             elif k == "BinaryOperator" and s0.get("opcode") == "=":
                 l, r = kids(s0)
                 out.append(("asg", l, self._value(r, val, side)))
+                self._written.add(self._atom_key(l, side))
             else:
                 out.append(("do", s0))
+                for y in walk(s0):
+                    if y.get("kind") in ("BinaryOperator", "CompoundAssignOperator") and (y.get("opcode") == "=" or y.get("kind") == "CompoundAssignOperator"):
+                        self._written.add(self._atom_key(kids(y)[0], side))
+                    elif y.get("kind") == "UnaryOperator" and y.get("opcode") in ("++", "--"):
+                        self._written.add(self._atom_key(kids(y)[0], side))
         return False
 
     def _value(self, e, val, side):
@@ -496,7 +505,9 @@ class Aligner:
                 raise Aligner._Giveup()
             try:
                 oa, ob = [], []
+                self._written = set()
                 self._run(wa, val, "a", oa)
+                self._written = set()
                 self._run(wb, val, "b", ob)
             except Aligner._Need as nd:
                 for v in (False, True):
